@@ -19,11 +19,17 @@ type methodCache[R CacheableResult] struct {
 	// older generation must not be cached: it may predate the change that the
 	// invalidating notification announced.
 	generation uint64
+	// puts counts insertions; it orders the entries by recency (see
+	// cacheEntry.seq).
+	puts uint64
 }
 
 type cacheEntry[R CacheableResult] struct {
 	result     R
 	receivedAt time.Time
+	// seq is the value of methodCache.puts when the entry was stored: of two
+	// entries, the one with the larger seq was received later.
+	seq uint64
 }
 
 func (e *cacheEntry[R]) isValid() bool {
@@ -78,9 +84,11 @@ func (mc *methodCache[R]) putLocked(key string, result R) {
 	if mc.cachedValues == nil {
 		mc.cachedValues = make(map[string]*cacheEntry[R])
 	}
+	mc.puts++
 	mc.cachedValues[key] = &cacheEntry[R]{
 		result:     result,
 		receivedAt: time.Now(),
+		seq:        mc.puts,
 	}
 }
 
